@@ -91,6 +91,7 @@ def run(chk):
         chk.count("ext=" + sp["ext"])
         A = [float(x) for x in imf._A_comps]
         Ar = ref_A(a, mb)
+        snap0 = (np.array(imf.mb, dtype=float).copy(), np.array(imf.a, dtype=float).copy(), np.array(imf._A_comps, dtype=float).copy(), float(imf.N0))
         # ---- oracle on constants: continuity + normalisation -----------------
         for i in range(1, len(a)):
             l, r = A[i - 1] * mb[i] ** a[i - 1], A[i] * mb[i] ** a[i]
@@ -177,6 +178,10 @@ def run(chk):
         if be[0] == "Ok" and abs(sum(be[2][:nal]) - mt) > 1e-8 * mt:
             chk.fail("break-aligned bins sum to the total mass", sp, dict(sum=sum(be[2][:nal]), Mtot=mt),
                      rel_dev=abs(sum(be[2][:nal]) - mt) / mt, bins_match_closed_form=bool(abs(sum(be[2][:nal]) - mt_ref) <= 1e-8 * mt_ref))
+        snap1 = (np.array(imf.mb, dtype=float), np.array(imf.a, dtype=float), np.array(imf._A_comps, dtype=float), float(imf.N0))
+        if not all(np.array_equal(x, y) for x, y in zip(snap0[:3], snap1[:3])) or snap0[3] != snap1[3] or list(mb) != sp["mb"]:
+            chk.fail("evaluating an IMF does not change it (breaks, slopes, amplitudes, N0)", sp,
+                     dict(mb_before=snap0[0].tolist(), mb_after=[float(x) for x in snap1[0]]))
         M0 = 10 ** rng.uniform(0, 7)
         from ssptools.masses import PowerLawIMF
         im2 = PowerLawIMF.from_M0(mb, a, M0)
